@@ -1,7 +1,205 @@
-(* C08 -- parsing a Span or Position sub-input equals parsing that slice on its own. *)
+(* C08 -- parsing a Span or Position sub-input equals parsing that slice on its own.
+   "Parsing Span(s, a, b) gives the result of parsing a fresh copy of s[a..b] with all offsets shifted
+   by a, and parsing Position(s, a) gives the result for s[a..]: same verdict, consumed length, spans
+   and tree, for the partial and the full entry points. SOI holds only at a, EOI only at b, and
+   nothing at or beyond b influences the outcome."
+   Statements only; every proof is `exact` of a lemma of Proofs/SubInputOps.v / Proofs/SubInput.v.
+
+   Vocabulary (Proofs/SubInputOps.v, Proofs/SubInput.v):
+     valid_range s a b   a <= b <= length s, both on char boundaries (what Span::new / Position::new accept)
+     sub_slice s a b     the text s[a..b]
+     sub_of I2 s a b     the input I2 has parent s, start() = a, end() = b  (SubInput2, and SubInput1 with b = len)
+     env_agree s a b E2 E0   E2 runs on such an input, E0 on the fresh `inp_of_str (sub_slice s a b)`; same
+                         rules, skip type, property tables, EOI rule and switches (no assumption on
+                         e_ron_fixed / e_rep_min_after beyond being equal)
+     shift_* a           add a to every byte offset: cursor, node spans (recursively), stack spans, tracker events
+     state_ok n st       every span on the stack (cache and popped) has start <= end <= n
+     res_ok ok n r       a result keeps the cursor <= n and the state state_ok *)
 From Coq Require Import List NArith.
-From PT Require Import Model.Base.
-(* placeholder replaced below once Proofs/SubInput.v is in place *)
-Theorem C08_placeholder : True.
-Proof. exact I. Qed.
-Print Assumptions C08_placeholder.
+From PT Require Import Model.Base Model.Stack Model.Texpr Model.Sem Model.Tok Model.Tokens.
+From PT Require Import Proofs.SubInputOps Proofs.SubInput.
+Import ListNotations.
+
+(* ---- byte level: every operation of the cursor on the sub-input is the operation on the fresh
+   text with offsets shifted by a (returned chars and texts are equal) ---- *)
+Theorem C08_matchers : forall s a b I2,
+  valid_range s a b -> sub_of I2 s a b ->
+  let I0 := inp_of_str (sub_slice s a b) in
+  length (sub_slice s a b) = b - a /\
+  (forall c0, i_get I2 (c0 + a) = i_get I0 c0) /\
+  (forall t c0, i_match_string I2 t (c0 + a) = mmap (option_map (shift_cur a)) (i_match_string I0 t c0)) /\
+  (forall t c0, i_match_insens I2 t (c0 + a) = mmap (option_map (shift_cur a)) (i_match_insens I0 t c0)) /\
+  (forall k c0, i_skip I2 k (c0 + a) = mmap (option_map (shift_cur a)) (i_skip I0 k c0)) /\
+  (forall f c0, i_match_char I2 f (c0 + a) = mmap (option_map (shift_char_hit a)) (i_match_char I0 f c0)) /\
+  (forall ss c0, c0 <= b - a ->
+     i_skip_until I2 true ss (c0 + a) = shift_until a (i_skip_until I0 true ss c0)) /\
+  (forall c0, i_at_start I2 (c0 + a) = i_at_start I0 c0) /\
+  (forall c0, i_at_end I2 (c0 + a) = i_at_end I0 c0) /\
+  (forall x0 y0, y0 <= b - a -> i_span I2 (x0 + a) (y0 + a) = mmap (shift_span a) (i_span I0 x0 y0)) /\
+  (forall sp0, snd sp0 <= b - a -> span_str I2 (shift_span a sp0) = span_str I0 sp0).
+Proof. exact matchers_related. Qed.
+Print Assumptions C08_matchers.
+
+(* every cursor an operation returns stays <= end() (input of any form): the invariant that keeps the
+   run inside the range where C08_matchers applies *)
+Theorem C08_matchers_bounded : forall I,
+  (forall t c p, i_match_string I t c = MOk (Some p) -> p <= i_end I) /\
+  (forall t c p, i_match_insens I t c = MOk (Some p) -> p <= i_end I) /\
+  (forall k c p, i_skip I k c = MOk (Some p) -> p <= i_end I) /\
+  (forall f c p ch, i_match_char I f c = MOk (Some (p, ch)) -> p <= i_end I) /\
+  (forall cut ss c, snd (i_skip_until I cut ss c) <= i_end I) /\
+  (forall x y sp, i_span I x y = MOk sp -> sp = (x, y) /\ x <= y).
+Proof. exact matchers_bounded. Qed.
+Print Assumptions C08_matchers_bounded.
+
+(* ---- pest::Stack: every operation commutes with mapping the stored spans (so with the shift), and
+   preserves any element-wise invariant of cache and popped (so the range invariant state_ok) ---- *)
+Theorem C08_stack_ops_commute : forall (f : span -> span) (s : stack),
+  s_len (map_stack f s) = s_len s /\
+  s_peek (map_stack f s) = option_map f (s_peek s) /\
+  (forall x, s_push (f x) (map_stack f s) = map_stack f (s_push x s)) /\
+  s_pop (map_stack f s) = (option_map f (fst (s_pop s)), map_stack f (snd (s_pop s))) /\
+  s_snapshot (map_stack f s) = map_stack f (s_snapshot s) /\
+  s_clear_snapshot (map_stack f s) = mmap (map_stack f) (s_clear_snapshot s) /\
+  s_restore (map_stack f s) = mmap (map_stack f) (s_restore s) /\
+  (forall x y, s_index (map_stack f s) x y = mmap (map f) (s_index s x y)) /\
+  s_pop_all (map_stack f s) = map_stack f (s_pop_all s) /\
+  (forall saved, s_push_all (map f saved) (map_stack f s) = map_stack f (s_push_all saved s)).
+Proof. exact stack_ops_commute. Qed.
+Print Assumptions C08_stack_ops_commute.
+
+Theorem C08_stack_ops_preserve : forall (Q : span -> Prop) (s : stack),
+  stack_all Q s ->
+  (forall x, Q x -> stack_all Q (s_push x s)) /\
+  (forall x, s_peek s = Some x -> Q x) /\
+  stack_all Q (snd (s_pop s)) /\
+  (forall x, fst (s_pop s) = Some x -> Q x) /\
+  stack_all Q (s_snapshot s) /\
+  (forall s1, s_clear_snapshot s = MOk s1 -> stack_all Q s1) /\
+  (forall s1, s_restore s = MOk s1 -> stack_all Q s1) /\
+  (forall x y l, s_index s x y = MOk l -> Forall Q l) /\
+  stack_all Q (s_pop_all s) /\
+  (forall saved, Forall Q saved -> stack_all Q (s_push_all saved s)).
+Proof. exact stack_ops_preserve. Qed.
+Print Assumptions C08_stack_ops_preserve.
+
+(* ---- the parse path: for every grammar, expression, fuel, cursor c0 inside the fresh text and
+   state whose stack spans lie inside it, the run on the sub-input from c0 + a on the shifted state
+   is the shifted run on the fresh text: same verdict (Ok / Fail / Panic / Fuel), cursor + a, tree
+   with every span + a, stack spans + a, tracker events + a.  The fresh run keeps the invariant. ---- *)
+Theorem C08_subinput : forall s a b E2 E0 fuel inh e c0 st,
+  valid_range s a b -> env_agree s a b E2 E0 -> e_su_cut E2 = true -> e_su_cut E0 = true ->
+  c0 <= b - a -> state_ok (b - a) st ->
+  tparse E2 fuel inh e (c0 + a) (shift_state a st) = shift_pres a (tparse E0 fuel inh e c0 st)
+  /\ res_ok (cur_ok (b - a)) (b - a) (tparse E0 fuel inh e c0 st).
+Proof. exact subinput_parse. Qed.
+Print Assumptions C08_subinput.
+
+(* ---- the check path ---- *)
+Theorem C08_subinput_check : forall s a b E2 E0 fuel inh e c0 st,
+  valid_range s a b -> env_agree s a b E2 E0 -> e_su_cut E2 = true -> e_su_cut E0 = true ->
+  c0 <= b - a -> state_ok (b - a) st ->
+  tcheck E2 fuel inh e (c0 + a) (shift_state a st) = shift_cres a (tcheck E0 fuel inh e c0 st)
+  /\ res_ok (fun p => p <= b - a) (b - a) (tcheck E0 fuel inh e c0 st).
+Proof. exact subinput_check. Qed.
+Print Assumptions C08_subinput_check.
+
+(* ---- the four entry points (the full ones include the trailing skip and the EOI attempt) ---- *)
+Theorem C08_entry_points : forall s a b E2 E0 fuel r,
+  valid_range s a b -> env_agree s a b E2 E0 -> e_su_cut E2 = true -> e_su_cut E0 = true ->
+  try_parse_partial E2 fuel r = shift_pres a (try_parse_partial E0 fuel r) /\
+  try_check_partial E2 fuel r = shift_cres a (try_check_partial E0 fuel r) /\
+  try_parse E2 fuel r = shift_tres a (try_parse E0 fuel r) /\
+  try_check E2 fuel r = shift_ures a (try_check E0 fuel r).
+Proof. exact subinput_entry_points. Qed.
+Print Assumptions C08_entry_points.
+
+(* the same, spelled out for the two concrete forms: Span(s, a, b) against the fresh s[a..b] ... *)
+Theorem C08_span_entry_points : forall s a b E fuel r,
+  valid_range s a b -> e_inp E = inp_of_str (sub_slice s a b) -> e_su_cut E = true ->
+  let E2 := with_inp E (inp_of_span s a b) in
+  try_parse_partial E2 fuel r = shift_pres a (try_parse_partial E fuel r) /\
+  try_check_partial E2 fuel r = shift_cres a (try_check_partial E fuel r) /\
+  try_parse E2 fuel r = shift_tres a (try_parse E fuel r) /\
+  try_check E2 fuel r = shift_ures a (try_check E fuel r).
+Proof. exact span_entry_points. Qed.
+Print Assumptions C08_span_entry_points.
+
+(* ... and Position(s, a) against the fresh s[a..] *)
+Theorem C08_position_entry_points : forall s a E fuel r,
+  a <= length s -> is_boundary s a = true -> e_inp E = inp_of_str (skipn a s) -> e_su_cut E = true ->
+  let E2 := with_inp E (inp_of_pos s a) in
+  try_parse_partial E2 fuel r = shift_pres a (try_parse_partial E fuel r) /\
+  try_check_partial E2 fuel r = shift_cres a (try_check_partial E fuel r) /\
+  try_parse E2 fuel r = shift_tres a (try_parse E fuel r) /\
+  try_check E2 fuel r = shift_ures a (try_check E fuel r).
+Proof. exact position_entry_points. Qed.
+Print Assumptions C08_position_entry_points.
+
+(* ---- what the Pairs API exposes: a successful full parse of the sub-input yields exactly the tokens
+   of the fresh parse with start/end shifted by a (recursively through the children) ---- *)
+Theorem C08_tokens : forall s a b E2 E0 fuel r t st,
+  valid_range s a b -> env_agree s a b E2 E0 -> e_su_cut E2 = true -> e_su_cut E0 = true ->
+  try_parse E0 fuel r = Ok t st ->
+  exists t2 st2, try_parse E2 fuel r = Ok t2 st2 /\ tokens E2 t2 = map (shift_tok a) (tokens E0 t).
+Proof. exact subinput_tokens. Qed.
+Print Assumptions C08_tokens.
+
+(* ---- SOI holds only at a, EOI only at b ---- *)
+Theorem C08_soi_eoi : forall s a b E2 k inh c st,
+  sub_of (e_inp E2) s a b ->
+  ((exists x st', tparse E2 (S k) inh TSoi c st = Ok x st') <-> c = a) /\
+  ((exists x st', tparse E2 (S k) inh TEoi c st = Ok x st') <-> c = b).
+Proof. exact soi_eoi. Qed.
+Print Assumptions C08_soi_eoi.
+
+(* ---- nothing at or beyond b (nor before a) influences the outcome: two parent strings that carry the
+   same text between a and b (both sub-inputs agree with the same fresh environment E0) give identical
+   runs ---- *)
+Theorem C08_outside_irrelevant : forall s1 s2 a b E1 E2 E0 fuel inh e c0 st,
+  valid_range s1 a b -> valid_range s2 a b ->
+  env_agree s1 a b E1 E0 -> env_agree s2 a b E2 E0 ->
+  e_su_cut E1 = true -> e_su_cut E2 = true -> e_su_cut E0 = true ->
+  c0 <= b - a -> state_ok (b - a) st ->
+  tparse E1 fuel inh e (c0 + a) (shift_state a st) = tparse E2 fuel inh e (c0 + a) (shift_state a st) /\
+  tcheck E1 fuel inh e (c0 + a) (shift_state a st) = tcheck E2 fuel inh e (c0 + a) (shift_state a st).
+Proof. exact outside_irrelevant. Qed.
+Print Assumptions C08_outside_irrelevant.
+
+(* ---- the hypotheses are satisfiable and the conclusion is not trivial: a Span over a multi-byte
+   char with implicit whitespace, a stack push, skip_until and a look-ahead at the cut-off end ---- *)
+Theorem C08_nonvacuous :
+  let E2 := ex_env (inp_of_span ex_s 1 6) true in
+  let E0 := ex_env (inp_of_str (sub_slice ex_s 1 6)) true in
+  valid_range ex_s 1 6 /\ env_agree ex_s 1 6 E2 E0 /\ e_su_cut E2 = true /\ e_su_cut E0 = true /\
+  sub_slice ex_s 1 6 = [195; 169; 32; 97; 98]%N /\
+  try_parse_partial E0 10 0%N =
+    Ok (5, NRule 0%N (Some (NSeq [([NAtomicRep []], NSoi);
+                                  ([NAtomicRep []], NChar CkAny 233%N);
+                                  ([NAtomicRep [NStr]], NPush NStr);
+                                  ([NAtomicRep []], NSpanned KSkip 4 4);
+                                  ([NAtomicRep []], NStr);
+                                  ([NAtomicRep []], NNeg);
+                                  ([NAtomicRep []], NEoi)])) (Some (0, 5)))
+       (mk_state (mk_stack [(3, 4)] [] []) [EExit 0%N 0 true; EPolEnd; EPol false; EEnter 0%N 0]) /\
+  try_parse_partial E2 10 0%N =
+    Ok (6, NRule 0%N (Some (NSeq [([NAtomicRep []], NSoi);
+                                  ([NAtomicRep []], NChar CkAny 233%N);
+                                  ([NAtomicRep [NStr]], NPush NStr);
+                                  ([NAtomicRep []], NSpanned KSkip 5 5);
+                                  ([NAtomicRep []], NStr);
+                                  ([NAtomicRep []], NNeg);
+                                  ([NAtomicRep []], NEoi)])) (Some (1, 6)))
+       (mk_state (mk_stack [(4, 5)] [] []) [EExit 0%N 1 true; EPolEnd; EPol false; EEnter 0%N 1]).
+Proof. exact subinput_nonvacuous. Qed.
+Print Assumptions C08_nonvacuous.
+
+(* ---- the repaired defect: with skip_until comparing against text that runs to the end of the parent
+   string (e_su_cut = false, the code before the fix) the statement is false ---- *)
+Theorem C08_refuted_before_fix :
+  exists s a b E2 E0 e,
+    valid_range s a b /\ env_agree s a b E2 E0 /\ e_su_cut E2 = false /\ e_su_cut E0 = false /\
+    tparse E2 2 true e (0 + a) (shift_state a st0) <> shift_pres a (tparse E0 2 true e 0 st0) /\
+    tcheck E2 2 true e (0 + a) (shift_state a st0) <> shift_cres a (tcheck E0 2 true e 0 st0).
+Proof. exact subinput_refuted_before_fix. Qed.
+Print Assumptions C08_refuted_before_fix.
